@@ -652,3 +652,6 @@ _amend("C19", "{read, quote-evaluate, build at run time, keep live across two fo
        "{read, quote-evaluate, build at run time, keep live across two forced collections, equal?, write, drop, call, evaluate, error-at-depth, "
        "capture-continuation, lambda-body; for flat lists also append, reverse, length/list?, list->vector/vector->list, map/for-each, apply, "
        "memq/member/memv, list-tail/list-ref}")
+_amend("C06", "(+ 1 2) is evaluated as a canary.",
+       "(+ 1 2) is evaluated as a canary; if that fails although ((lambda (x) x) 3) still works, the text may have rebound the global + "
+       "(counted, fresh VM, no verdict).")
